@@ -46,7 +46,7 @@ def lean_type(t) -> str:
             return " × ".join(lean_type_atom(x) for x in t[1])
     return {"int": "Int", "nat": "Nat", "bool": "Bool", "dir": "Dir", "mode": "Mode", "agent": "Agent", "num": "Num", "R": "R",
             "coords": "List Coord", "es": "ES R", "unit": "Unit", "gen": "List Agent", "cfg": "StopCfg R", "book": "Book R",
-            "A": "α", "str": "String", "task": "τ", "self": "Self R σ τ", "objval": "ObjVal", "raws": "List Raw", "tasksem": "TaskSem", "vd": "VarDecl", "var": "Var", "vdget": "VarGet", "raw": "Raw", "coord": "Coord"}[t]
+            "A": "α", "str": "String", "task": "τ", "self": "Self R σ τ", "objval": "ObjVal", "raws": "List Raw", "tasksem": "TaskSem", "vd": "VarDecl", "var": "Var", "vdget": "VarGet", "raw": "Raw", "coord": "Coord", "bentry": "BEntry"}[t]
 
 
 def lean_type_atom(t) -> str:
@@ -182,6 +182,14 @@ SPEC = [
     dict(name="binary_children", src=("models.py", "BinaryVariable.__init__"), params={}, ret=L("var"), init_children=True, selfr={"n_vars": ("n_vars", "int")}),
     dict(name="binary_size", src=("models.py", "BinaryVariable.size"), params={}, ret="int", selfr={"n_vars": ("n_vars", "int")}),
     dict(name="binary_has_children", src=("models.py", "BinaryVariable.has_children"), params={}, ret="bool"),
+    dict(name="perm_get_bounds", src=("models.py", "PermutationVariable.get_bounds"), params={}, ret=T(L("num"), L("num")), poly=True,
+         selfr={"items": ("items", L("A"))}, extra=[("permUb", "Nat → Num")], floats={"n_items - 0.0001": ("(permUb n_items.toNat)", "num")}),
+    dict(name="binary_get_bounds", src=("models.py", "BinaryVariable.get_bounds"), params={}, ret=T(L("num"), L("num")),
+         selfr={"n_vars": ("n_vars", "int")}, floats={"2 - np.finfo(float).eps": ("VarDecl.binaryUb", "num")}),
+    dict(name="discmulti_get_bounds", src=("models.py", "DiscreteMultiVariable.get_bounds"), params={}, ret=T(L("num"), L("num")), poly=True,
+         selfr={"choices": ("choices", L(L("A")))}, children=("discmulti_children", "choices"), uses_var_dispatch=True),
+    dict(name="task_get_bounds", src=("models.py", "Task.get_bounds"), params={}, ret=T(L("bentry"), L("bentry")), selfr={"variables": ("variables", L("vd"))},
+         uses_dispatch=True, extra=[("permUb", "Nat → Num")], locals={"lb": L("bentry"), "ub": L("bentry")}),
     dict(name="task_get_variables", src=("models.py", "Task.get_variables"), params={}, ret=L("var"), selfr={"variables": ("variables", L("vd"))}, uses_dispatch=True),
     dict(name="task_correct_solution", src=("models.py", "Task.correct_solution"), params={"solution": "raws"}, ret="coords",
          selfr={"variables": ("variables", L("vd"))}, uses_dispatch=True),
@@ -335,6 +343,13 @@ class Fn:
             self.err(n, f"unknown name {n.id}")
         if isinstance(n, ast.Attribute):
             sp = self.self_path(n)
+            if sp == "_children" and self.spec.get("children"):
+                fn, field = self.spec["children"]
+                arg = self.selfr[field][0]
+                if fn in self.effectful:
+                    self.need_eff(n)
+                    return f"(← {fn} {arg})", L("var")
+                return f"({fn} {arg})", L("var")
             if sp is not None and self.selfrec:
                 head, _, rest = sp.partition(".")
                 if head in SELF_FIELDS and not rest:
@@ -406,6 +421,11 @@ class Fn:
             c, cty = self.E(n.test, env)
             a, aty = self.E(n.body, env)
             b, bty = self.E(n.orelse, env)
+            if {repr(aty), repr(bty)} == {repr("bentry"), repr(L("bentry"))}:
+                # `lb_ if v.has_children() else [lb_]`: the numbers of a list-valued bound, or the bound itself as one entry
+                a = f"(← Py.bentryAsList {atom(a)})" if aty == "bentry" else a
+                b = f"(← Py.bentryAsList {atom(b)})" if bty == "bentry" else b
+                aty = bty = L("bentry")
             if {repr(aty), repr(bty)} == {repr("vdget"), repr(L("vdget"))}:
                 # `v.get() if v.has_children() else [v.get()]`: either the list of children, or a one-element list of the variable itself
                 def as_vars(t, ty):
@@ -428,6 +448,17 @@ class Fn:
         if isinstance(n, ast.Compare):
             return self.compare(n, env)
         if isinstance(n, ast.BinOp):
+            txt = ast.unparse(n)
+            if txt in self.spec.get("floats", {}):
+                # floating-point arithmetic is not modelled: this exact expression stands for the named constant / parameter
+                return self.spec["floats"][txt]
+            if isinstance(n.op, ast.Mult) and isinstance(n.right, ast.Call) and ast.unparse(n.right.func) == "np.ones" and len(n.right.args) == 1:
+                x, xt = self.E(n.left, env)
+                k, kt = self.index_term(n.right.args[0], env)
+                if xt != "num":
+                    self.err(n, f"scalar of type {xt} times np.ones")
+                k = k if kt == "nat" else f"({k}).toNat"
+                return f"(List.replicate {k} {atom(x)})", L("num")
             return self.binop(n, env)
         if isinstance(n, ast.Subscript):
             return self.subscript(n, env)
@@ -808,6 +839,16 @@ class Fn:
                         self.err(n, f"np.clip argument of type {ty}")
                     parts.append(atom(t))
                 return f"(Num.clip {parts[0]} {parts[1]} {parts[2]})", "num"
+            if isinstance(f.value, ast.Name) and f.value.id == "np" and f.attr == "zeros" and len(n.args) == 1 and not n.keywords:
+                k, kt = self.index_term(n.args[0], env)
+                k = k if kt == "nat" else f"({k}).toNat"
+                return f"(List.replicate {k} (Num.fin 0))", L("num")
+            if isinstance(f.value, ast.Name) and f.value.id == "np" and f.attr == "array" and len(n.args) == 1 and not n.keywords:
+                t, ty = self.E(n.args[0], env)
+                if ty != L("bentry"):
+                    self.err(n, f"np.array of a {ty}")
+                self.need_eff(n)
+                return f"(← Py.npArray {atom(t)})", L("bentry")
             if isinstance(f.value, ast.Name) and f.value.id == "np" and f.attr == "atleast_1d" and len(n.args) == 1 and not n.keywords:
                 t, ty = self.E(n.args[0], env)
                 if ty == "objval":
@@ -833,6 +874,14 @@ class Fn:
                     if f.attr == "has_children":
                         return f"(vd_has_children {atom(rt)})", "bool"
                     return f"(vd_size {atom(rt)})", "int"
+            if f.attr == "get_bounds" and not n.args and not n.keywords and (self.spec.get("uses_dispatch") or self.spec.get("uses_var_dispatch")):
+                rt, rty = self.E(f.value, env)
+                if rty == "var":
+                    self.need_eff(n)
+                    return f"(← var_get_bounds_scalar {atom(rt)})", T("num", "num")
+                if rty == "vd":
+                    self.need_eff(n)
+                    return f"(← vd_get_bounds permUb {atom(rt)})", T("bentry", "bentry")
             if f.attr == "correct" and len(n.args) == 1 and not n.keywords and self.spec.get("uses_dispatch"):
                 rt, rty = self.E(f.value, env)
                 a, aty = self.E(n.args[0], env)
@@ -1697,10 +1746,11 @@ def infer_effects(table) -> set[str]:
                     own = True
                 if isinstance(n.func, ast.Attribute) and n.func.attr == "correct_solution":
                     own = True
-                if isinstance(n.func, ast.Attribute) and f"Task::self.{n.func.attr}" in table and sp["src"][1].split(".")[0] != "Task":
+                if isinstance(n.func, ast.Attribute) and f"Task::self.{n.func.attr}" in table and sp["src"][1].split(".")[0] != "Task" \
+                        and ast.unparse(n.func.value) == "self._task":
                     cs.add(f"Task::self.{n.func.attr}")
         calls[key] = cs
-        if own or sp.get("selfrec") or sp.get("uses_dispatch"):
+        if own or sp.get("selfrec") or sp.get("uses_dispatch") or sp.get("uses_var_dispatch"):
             eff.add(key)
     changed = True
     while changed:
@@ -1766,6 +1816,61 @@ def dispatchers(table, trees, effectful, failed) -> tuple[str | None, str | None
            "/-- `v.get()`: the variable itself (`return self`) or the children built by the class's `__init__` (`return self._children`) -/\n"
            "def vd_get : VarDecl → Except Err VarGet\n" + "\n".join(arms["get"]) + "\n")
     return txt, None
+
+
+def _gb_call(by_name, effectful, failed, prefix, binding):
+    fn = f"{prefix}_get_bounds"
+    if fn not in by_name or fn in failed:
+        return None
+    sp = by_name[fn]
+    args = [nm for nm, _ in sp.get("extra", [])] + [binding[f] for f in sp.get("selfr", {})]
+    return fn, (fn + " " + " ".join(args)).strip(), sp["ret"], fn in effectful
+
+
+def var_dispatcher(table, effectful, failed):
+    """`v.get_bounds()` for `v` a flattened scalar variable, where a pair of numbers is expected (children of a multi-variable)"""
+    by_name = {sp["name"]: sp for sp, _ in table.values()}
+    arms = []
+    for ctor, pvars, cls, prefix, binding, scalar in CLASSES:
+        if scalar is None:
+            continue
+        r = _gb_call(by_name, effectful, failed, prefix, binding)
+        if r is None:
+            return None, f"{cls}.get_bounds is not translated"
+        fn, call, ret, eff = r
+        vctor = "." + scalar.strip("()").split()[0].split(".")[1]
+        if eff:
+            return None, f"{cls}.get_bounds can raise"
+        if ret == T("num", "num"):
+            arms.append(f"  | {vctor} {pvars} => .ok ({call})")
+        elif ret == T("int", "int"):
+            arms.append(f"  | {vctor} {pvars} => .ok (intNum ({call}).1, intNum ({call}).2)")
+        else:
+            arms.append(f"  | {vctor} {pvars} => .error .typeError      -- {cls}.get_bounds is list-valued: not a pair of numbers")
+    return ("/-- `child.get_bounds()` where a pair of numbers is expected: one arm per scalar class, calling that class's translated method -/\n"
+            "def var_get_bounds_scalar : Var → Except Err (Num × Num)\n" + "\n".join(arms) + "\n"), None
+
+
+def bounds_dispatcher(table, effectful, failed):
+    by_name = {sp["name"]: sp for sp, _ in table.values()}
+    arms = []
+    for ctor, pvars, cls, prefix, binding, scalar in CLASSES:
+        r = _gb_call(by_name, effectful, failed, prefix, binding)
+        if r is None:
+            return None, f"{cls}.get_bounds is not translated"
+        fn, call, ret, eff = r
+        get = f"(← {call})" if eff else f"({call})"
+        if ret == T("num", "num"):
+            conv = "(.scalar b.1, .scalar b.2)"
+        elif ret == T("int", "int"):
+            conv = "(.scalar (intNum b.1), .scalar (intNum b.2))"
+        elif ret == T(L("num"), L("num")):
+            conv = "(.vec b.1, .vec b.2)"
+        else:
+            return None, f"{cls}.get_bounds returns {ret}"
+        arms.append(f"  | {ctor} {pvars} => do let b := {get}; return {conv}")
+    return ("/-- `v.get_bounds()` over the declared variable classes: each component is a number or a list of numbers, as the class's own method returns it -/\n"
+            "def vd_get_bounds (permUb : Nat → Num) : VarDecl → Except Err (BEntry × BEntry)\n" + "\n".join(arms) + "\n"), None
 
 
 def generate(repo: Path) -> tuple[str, dict]:
@@ -1885,12 +1990,34 @@ def generate(repo: Path) -> tuple[str, dict]:
     failed = set()
     dispatch_done = False
     # functions that use the dispatchers come after everything else they might call
-    order = [k for k in order if not table[k][0].get("uses_dispatch")] + [k for k in order if table[k][0].get("uses_dispatch")]
+    def rank(k):
+        sp = table[k][0]
+        return 2 if sp.get("uses_dispatch") else (1 if sp.get("uses_var_dispatch") else 0)
+    order = sorted(order, key=rank)       # stable: plain functions, then those needing the scalar dispatch, then those needing the class dispatch
+    var_dispatch_done = False
     for k in order:
         sp, node = table[k]
+        if (sp.get("uses_var_dispatch") or sp.get("uses_dispatch")) and not var_dispatch_done:
+            var_dispatch_done = True
+            vtxt, vwhy = var_dispatcher(table, effectful, failed)
+            if vtxt is None:
+                report["untranslatable"]["var_dispatch"] = vwhy
+                failed.add("var_dispatch")
+            else:
+                out.append(vtxt)
+        if sp.get("uses_var_dispatch") and "var_dispatch" in failed:
+            failed.add(sp["name"])
+            report["untranslatable"][sp["name"]] = "needs the dispatch over the scalar variable classes: " + report["untranslatable"]["var_dispatch"]
+            continue
         if sp.get("uses_dispatch") and not dispatch_done:
             dispatch_done = True
             dtxt, dwhy = dispatchers(table, trees, effectful, failed)
+            if dtxt is not None:
+                btxt, bwhy = bounds_dispatcher(table, effectful, failed)
+                if btxt is None:
+                    dtxt, dwhy = None, bwhy
+                else:
+                    dtxt = dtxt + "\n" + btxt
             if dtxt is None:
                 report["untranslatable"]["vd_dispatch"] = dwhy
                 failed.add("vd_dispatch")
